@@ -9,8 +9,23 @@ Decided (structural clauses, nothing executed):
   R44.2 ``rollback``: the deep copy is taken before the body runs; on OptionsError: ``errored.send`` -> restore of ``_options`` ->
         ``changed.send(updated)`` -> re-raise when asked; ``_Option.set`` type-checks before it assigns.
   R44.3 ``serialize`` writes exactly the options with ``has_changed`` (or all with ``defaults``), drops keys that are not options,
-        ``save`` forwards ``defaults``; ``load`` feeds ``update_defer`` with the parsed mapping.
-NOT decided: YAML value round-trip; listeners raising anything but OptionsError (contract of ``subscribe``/``changed``).
+        ``save`` forwards ``defaults``; ``load`` feeds ``update_defer`` with the parsed mapping.  (serialize / load: decided on the key sets
+        observed when both functions are interpreted from their AST - same runs as R44.4 - not on their source text.)
+  R44.4 (E3, pyint) the config path is value-faithful - clause "saving options to a config file and loading that file into fresh options
+        reproduces every non-default value".  ``serialize`` and ``load`` are interpreted from their AST (nothing executed) over one
+        representative option per (supported type x value class): bool on/off, int 0/negative, str ""/YAML-special words/quotes+newline/
+        unicode, Optional[str]/Optional[int] None-with-non-None-default / falsy / plain, Sequence[str] empty / non-empty, an unchanged
+        option, and keys that are not (yet) options.  ``parse`` and the YAML dumper are replaced by recording stubs (library trusted),
+        the OptManager by an abstract record offering its accessor contract (keys / has_changed / attribute read / ``_options`` / ``in``):
+          (a) the mapping handed to the dumper holds, for EVERY changed option, exactly its current value (same type - None stays None,
+              False stays False, [] stays []), never a stale value of the previous file (which keys are written: R44.3); with
+              ``defaults`` every option;
+          (b) the keyword arguments ``load`` hands to ``update_defer`` are exactly the parsed mapping - every key (known or deferrable),
+              every value type-identical; only ``scripts`` may be re-based, and only when ``cwd`` is given.
+        A value class dropped or coerced on either side (None, falsy, empty list, unknown key) is a non-default value the next start
+        silently replaces by the default.
+NOT decided: YAML text round-trip of a value (ruamel trusted); listeners raising anything but OptionsError (contract of
+``subscribe``/``changed``); that update_defer applies what it is handed (R44.1/R44.2 cover its transactionality).
 """
 
 from __future__ import annotations
@@ -25,14 +40,18 @@ from ..paths import traces_of
 from ..selftest import Mutant
 from ._helpers_H import Config
 from ._helpers_H import MayRaise
+from ..pyint import DictRec
+from ..pyint import Interp
+from ..pyint import Raised
 
 PROP = "C44"
 REG = {
     "strength": "partial",
-    "technique": "exception-escape sets vs. restoring handlers of the rollback context manager (E5) + pre-validation idiom + ordering path facts",
+    "technique": "exception-escape sets vs. restoring handlers of the rollback context manager (E5) + pre-validation idiom + ordering path facts "
+    "+ AST interpretation of serialize/load over representative options of every supported type",
     "claim": "every explicit raise / modelled raiser inside update_known's rollback block is either restored by rollback or excluded by an identical "
     "type check passed for every value before the first mutation; rollback copies before and restores/re-notifies in order; serialize/load agree "
-    "on the option set.",
+    "on the option set and hand every representative value (None, falsy, empty, YAML-special strings, deferred keys) on type-identically.",
     "note": "Listener contract: receivers of `changed` raise OptionsError only. check_option_type is assumed deterministic in its arguments.",
 }
 
@@ -216,26 +235,157 @@ def check(ctx):
               "a value of the wrong type is stored before (or without) being checked", desc="check_option_type precedes self.value = value")
     ctx.expect_instances("R44.2", 4)
 
-    # ---- R44.3
-    ser, load, save = ctx.func(OM, "serialize"), ctx.func(OM, "load"), ctx.func(OM, "save")
-    wr = [n for n in walk_in_order(ser) if isinstance(n, ast.For) and norm(n.iter) == "opts.keys()"]
-    ok = False
-    if len(wr) == 1 and len(wr[0].body) == 1 and isinstance(wr[0].body[0], ast.If):
-        g = wr[0].body[0]
-        k = norm(wr[0].target)
-        ok = norm(g.test) == f"defaults or opts.has_changed({k})" and len(g.body) == 1 and norm(g.body[0]) == f"data[{k}] = getattr(opts, {k})" and not g.orelse
-    ctx.check(ok, "R44.3", (OM, "serialize", ser), "serialize writes data[k] for `defaults or opts.has_changed(k)`", "the set of serialised options is no longer {changed} / {all}",
-              desc="serialize: data[k] = getattr(opts, k) iff defaults or has_changed(k)")
-    dl = [n for n in walk_in_order(ser) if isinstance(n, ast.For) and norm(n.iter) == "list(data.keys())"]
-    ok = len(dl) == 1 and len(dl[0].body) == 1 and isinstance(dl[0].body[0], ast.If) and norm(dl[0].body[0].test) == f"{norm(dl[0].target)} not in opts._options" \
-        and norm(dl[0].body[0].body[0]) == f"del data[{norm(dl[0].target)}]"
-    ctx.check(ok, "R44.3", (OM, "serialize", ser), "serialize drops keys that are not options", "unknown keys of an old file survive serialisation", desc="serialize: unknown keys deleted")
-    ok = any(norm(n) == "opts.update_defer(**data)" for n in walk_in_order(load) if isinstance(n, ast.Call)) and \
-        any(norm(n) == "data = parse(text)" for n in load.body)
-    ctx.check(ok, "R44.3", (OM, "load", load), "load: opts.update_defer(**parse(text))", "load no longer applies the parsed mapping through update_defer", desc="load feeds update_defer")
-    ok = any(norm(n) == "serialize(opts, f, data, defaults)" for n in walk_in_order(save) if isinstance(n, ast.Call))
-    ctx.check(ok, "R44.3", (OM, "save", save), "save forwards `defaults` to serialize", "save ignores its defaults flag", desc="save -> serialize(opts, f, data, defaults)")
+    # ---- R44.3 (serialize / load instances come from the interpretation shared with R44.4, see _config_path)
+    ser, save = ctx.func(OM, "serialize"), ctx.func(OM, "save")
+    params = [a.arg for a in ser.args.posonlyargs + ser.args.args]
+    ctx.require("defaults" in params and any(a.arg == "defaults" for a in save.args.args + save.args.kwonlyargs), "serialize/save no longer take `defaults`")
+    pos = params.index("defaults")
+    calls = [n for n in walk_in_order(save) if isinstance(n, ast.Call) and norm(n.func) == "serialize"]
+    ok = bool(calls) and all((len(c.args) > pos and norm(c.args[pos]) == "defaults") or any(k.arg == "defaults" and norm(k.value) == "defaults" for k in c.keywords) for c in calls)
+    ctx.check(ok, "R44.3", (OM, "save", save), "save forwards `defaults` to serialize", "save ignores its defaults flag", desc="save -> serialize(..., defaults)")
+
+    # ---- R44.4
+    ctx.rule("R44.4", "serialize hands the dumper the current value of every changed option and load hands update_defer the parsed mapping unchanged "
+             "(all supported types incl. None / falsy / empty values, unknown keys deferred)")
+    ctx.guard(_config_path, ctx)
     ctx.expect_instances("R44.3", 4)
+    ctx.expect_instances("R44.4", 4)
+
+
+# (option name, type label, default, current value): one representative per supported type x value class
+_OPTIONS = [
+    ("bool_off", "bool", True, False), ("bool_on", "bool", False, True),
+    ("int_zero", "int", 8080, 0), ("int_neg", "int", 0, -1),
+    ("str_empty", "str", "dflt", ""), ("str_null_word", "str", "", "null"), ("str_tilde", "str", "", "~"), ("str_yes_word", "str", "", "yes"),
+    ("str_quotes_newline", "str", "", "a\n'b\" c: #"), ("str_unicode", "str", "", "caf\u00e9 \u4e2d"),
+    ("optstr_none", "Optional[str]", "dflt", None), ("optstr_empty", "Optional[str]", None, ""), ("optstr_value", "Optional[str]", None, "v"),
+    ("optint_none", "Optional[int]", 5, None), ("optint_zero", "Optional[int]", None, 0), ("optint_value", "Optional[int]", None, 7),
+    ("seq_empty", "Sequence[str]", ["a"], []), ("seq_value", "Sequence[str]", [], ["a", "b"]),
+    ("same_str", "str", "d", "d"), ("same_none", "Optional[str]", None, None), ("scripts", "Sequence[str]", [], ["s1.py", "sub/s2.py"]),
+]
+
+
+def _same(a, b):
+    """type-identical equality (False != 0, [] != (), None only equals None)."""
+    if type(a) is not type(b):
+        return False
+    if isinstance(a, (list, tuple)):
+        return len(a) == len(b) and all(_same(x, y) for x, y in zip(a, b))
+    return a == b
+
+
+class _Dumper:
+    """recording stand-in for ruamel.yaml.YAML (library trusted): remembers every document handed to dump()."""
+
+    docs: list = []
+
+    def __init__(self, *a, **kw):
+        pass
+
+    def dump(self, data, *a, **kw):
+        _Dumper.docs.append(data)
+
+
+def _config_path(ctx):
+    import copy as _copy
+    import pathlib as _pathlib
+    import types as _types
+
+    m = ctx.model
+    ser, load = ctx.func(OM, "serialize"), ctx.func(OM, "load")
+    ruamel = _types.SimpleNamespace(yaml=_types.SimpleNamespace(YAML=_Dumper))
+    current = {n: cur for n, _, _, cur in _OPTIONS}
+    default = {n: d for n, _, d, _ in _OPTIONS}
+    label = {n: t for n, t, _, _ in _OPTIONS}
+    changed = {n for n in current if not _same(current[n], default[n])}
+
+    def interp(parsed):
+        it = Interp(m, trusted_modules={"pathlib": _pathlib, "ruamel": ruamel, "copy": _copy})
+        it.overrides[(OM, "parse")] = lambda text: _copy.deepcopy(parsed)
+        it.overrides[(OM, "relative_path")] = lambda p, relative_to=None, **kw: _pathlib.PurePosixPath("/rebased") / str(p)
+        return it
+
+    def run(it, qual, *args, **kwargs):
+        try:
+            return it.call(OM, qual, *args, **kwargs)
+        except Raised as r:
+            raise AnalysisError(f"R44.4: {qual} raises {r.name} on the representative options ({r.msg}) - interface of the abstract OptManager outgrown")
+
+    # ---- (a) serialize
+    # the previous file: a stale value for a changed option, a key that is no option (any more), a value for an unchanged option
+    previous = {"int_zero": 4711, "optstr_none": "stale", "seq_empty": ["stale"], "gone_option": 1, "same_str": "d"}
+    key_errors, alien_all = [], []
+    for defaults in (False, True):
+        opts = DictRec("OptManager", items={n: n for n in current}, _name="opts",
+                       keys=lambda: set(current), has_changed=lambda k: k in changed, default=lambda k: _copy.deepcopy(default[k]),
+                       _options={n: n for n in current}, **{n: _copy.deepcopy(v) for n, v in current.items()})
+        _Dumper.docs = []
+        it = interp(previous)
+        run(it, "serialize", opts, "<file>", "<previous text>", defaults)
+        ctx.cells += len(current)
+        ctx.require(len(_Dumper.docs) == 1 and isinstance(_Dumper.docs[0], dict), f"R44.4: serialize(defaults={defaults}) handed {len(_Dumper.docs)} documents to the YAML dumper (expected one mapping)")
+        doc = _Dumper.docs[0]
+        want = set(current) if defaults else changed
+        # R44.3: WHICH options are written: all with `defaults`, else the changed ones (+ what the previous file already said about an option)
+        allowed = want | (set(previous) & set(current))
+        alien = sorted(k for k in doc if k not in current)
+        alien_all += [k for k in alien if k not in alien_all]
+        missing, extra = sorted(want - set(doc)), sorted(k for k in doc if k in current and k not in allowed)
+        if missing or extra:
+            key_errors.append(f"defaults={defaults}: " + "; ".join(x for x in (f"not written {missing}" if missing else "", f"written although unchanged {extra}" if extra else "") if x))
+        # R44.4: WHAT is written
+        lost = sorted(n for n in want if n not in doc)
+        wrong = sorted(n for n in want if n in doc and not _same(doc[n], current[n]))
+        why = []
+        if lost:
+            why.append("not written: " + ", ".join(f"{n} ({label[n]} = {current[n]!r}, default {default[n]!r})" for n in lost))
+        if wrong:
+            why.append("written with another value: " + ", ".join(f"{n} ({label[n]}: {doc[n]!r} instead of {current[n]!r})" for n in wrong))
+        ctx.check(not why, "R44.4", (OM, "serialize", ser), f"serialize(defaults={defaults}) writes the current value of every {'option' if defaults else 'changed option'}",
+                  "; ".join(why) + " - the saved file does not reproduce these non-default values when it is loaded", desc=f"serialize(defaults={defaults}): {len(want)} representative options written type-identically",
+                  lost=lost, wrong=wrong)
+    ctx.check(not key_errors, "R44.3", (OM, "serialize", ser), "serialize writes an option iff `defaults` or it has changed", "the set of serialised options is no longer {changed} / {all}: " + " | ".join(key_errors),
+              desc="serialize: exactly the changed options (all with defaults) are written; entries of the previous file for known options are kept")
+    ctx.check(not alien_all, "R44.3", (OM, "serialize", ser), "serialize drops keys that are not options", f"unknown keys of an old file survive serialisation: {alien_all}", desc="serialize: unknown keys of the previous file dropped")
+
+    # ---- (b) load
+    parsed = {n: _copy.deepcopy(current[n]) for n in current}
+    parsed.update({"deferred_none": None, "deferred_false": False, "deferred_list": [], "deferred_value": "x"})  # options an addon registers later
+    for cwd in (None, "/cfg"):
+        got: list = []
+        strict: list = []
+        opts = DictRec("OptManager", items={n: n for n in current}, _name="opts", keys=lambda: set(current), _options={n: n for n in current},
+                       has_changed=lambda k: False, update_defer=lambda **kw: got.append(kw), update=lambda **kw: strict.append(kw),
+                       update_known=lambda **kw: strict.append(kw), **{n: _copy.deepcopy(default[n]) for n in current})
+        it = interp(parsed)
+        run(it, "load", opts, "<text>", cwd)
+        ctx.cells += len(parsed)
+        if cwd is None:
+            ctx.check(bool(got) and not strict, "R44.3", (OM, "load", load), "load applies the parsed mapping through update_defer",
+                      "load no longer applies the parsed mapping through update_defer: options an addon registers later are rejected (update) or silently dropped (update_known) instead of deferred",
+                      desc="load feeds update_defer")
+        applied: dict = {}
+        for kw in got + strict:
+            applied.update(kw)
+        lost = sorted(k for k in parsed if k not in applied)
+        wrong = sorted(k for k in parsed if k in applied and not _same(applied[k], parsed[k]) and not (k == "scripts" and cwd is not None))
+        if cwd is not None and "scripts" in applied:
+            sc = applied["scripts"]
+            if not (isinstance(sc, list) and len(sc) == len(parsed["scripts"]) and all(isinstance(x, str) for x in sc)):
+                wrong.append("scripts")
+        alien = sorted(k for k in applied if k not in parsed)
+        why = []
+        if lost:
+            why.append("never handed to update_defer: " + ", ".join(f"{k} = {parsed[k]!r}" for k in lost))
+        if wrong:
+            why.append("handed on with another value: " + ", ".join(f"{k} ({applied[k]!r} instead of {parsed[k]!r})" for k in wrong))
+        if alien:
+            why.append(f"keys the file does not contain: {alien}")
+        ctx.check(not why, "R44.4", (OM, "load", load), f"load(cwd={cwd!r}) hands the parsed mapping to update_defer unchanged",
+                  "; ".join(why) + " - an option saved with such a value comes back as its default after save + load", desc=f"load(cwd={cwd!r}): {len(parsed)} parsed keys reach update_defer type-identically",
+                  lost=lost, wrong=wrong, alien=alien)
+    ctx.bounds.append(f"R44.4: serialize/load interpreted on {len(_OPTIONS)} representative options (one per supported type x value class) + 4 deferred keys")
+    ctx.trust("ruamel.yaml dumps and safe-loads bool/int/str/None/list-of-str values unchanged (R44.4 stops at the dumper / at parse)")
 
 
 PRE = "            for k, v in known.items():\n                typecheck.check_option_type(k, v, self._options[k].typespec)\n"
@@ -258,4 +408,11 @@ MUTANTS = [
     Mutant("serialize-keeps-unknown-keys", OM, "        if k not in opts._options:\n            del data[k]\n", "        pass\n", "R44.3"),
     Mutant("load-uses-strict-update", OM, "    opts.update_defer(**data)", "    opts.update(**data)", "R44.3"),
     Mutant("save-ignores-defaults", OM, "serialize(opts, f, data, defaults)", "serialize(opts, f, data)", "R44.3"),
+    # R44.4 - seed C44b and the same class of edit on either side of the config path
+    Mutant("load-drops-null-values", OM, "    data = parse(text)\n\n    scripts = data.get", "    data = parse(text)\n    data = {k: v for k, v in data.items() if v is not None}\n\n    scripts = data.get", "R44.4"),
+    Mutant("load-drops-falsy-values", OM, "    opts.update_defer(**data)", "    opts.update_defer(**{k: v for k, v in data.items() if v})", "R44.4"),
+    Mutant("load-applies-known-options-only", OM, "    opts.update_defer(**data)", "    opts.update_defer(**{k: v for k, v in data.items() if k in opts})", "R44.4"),
+    Mutant("serialize-skips-none", OM, "        if defaults or opts.has_changed(k):\n            data[k] = getattr(opts, k)", "        if (defaults or opts.has_changed(k)) and getattr(opts, k) is not None:\n            data[k] = getattr(opts, k)", "R44.4"),
+    Mutant("serialize-keeps-stale-file-value", OM, "            data[k] = getattr(opts, k)", "            data.setdefault(k, getattr(opts, k))", "R44.4"),
+    Mutant("serialize-stringifies-values", OM, "            data[k] = getattr(opts, k)", "            data[k] = str(getattr(opts, k))", "R44.4"),
 ]
